@@ -563,7 +563,7 @@ macro "lands_step" : tactic => `(tactic| first
   | with_reducible_and_instances exact Lands.pure_stop _
   | (with_reducible_and_instances refine Lands.setHeadPos_pure _ _ ?_)
   | (with_reducible_and_instances refine Lands.bind_labelPos ?_; intro _ _)
-  | (with_reducible_and_instances refine Lands.bind_keeps ?_ ?_; (keeps; done))
+  | (with_reducible_and_instances refine Lands.bind_keeps (by keeps) ?_)
   | intro _
   | split
   | dsimp only)
